@@ -270,6 +270,65 @@ class Expand(_ModeMixin, DisjointUnionStrategy):
         raise ValueError("word not in class")
 
 
+class ExpandAt(Expand):
+    """the expansion of the class with the given prefix, as a strategy that carries the prefix: a ready rule made by a factory for
+    a class that is not the one being expanded. Used as intended (on the class with that prefix) it is Expand."""
+
+    def __init__(self, prefix="", mode=""):
+        self.at = prefix
+        super().__init__(mode=mode)
+
+    def _kids(self, c):
+        base = c if c.prefix == self.at else PW(self.at, c.patterns, c.alphabet, False, c.params)
+        return super()._kids(base)
+
+    def formal_step(self):
+        return f"expand at {self.at!r} {self.mode}".strip()
+
+    def to_jsonable(self):
+        d = super().to_jsonable()
+        d["at"] = self.at
+        return d
+
+    @classmethod
+    def from_dict(cls, d):
+        return cls(d.get("at", ""), d.get("mode", ""))
+
+    def __repr__(self):
+        return f"ExpandAt({self.at!r},{self.mode!r})"
+
+
+class LookAhead(StrategyFactory):
+    """expands a class and, eagerly, its non-trivial children: ready rules whose parent is not the class being expanded"""
+
+    def __init__(self, mode=""):
+        self.mode = mode
+
+    def __call__(self, c):
+        if isinstance(c, SW) or c.just_prefix:
+            return
+        rule = ExpandAt(c.prefix, self.mode)(c)
+        yield rule
+        for ch in rule.children:
+            if not ch.just_prefix and not ch.is_empty():
+                yield ExpandAt(ch.prefix, self.mode)(ch)
+
+    def __str__(self):
+        return "expand, looking one letter ahead"
+
+    def __repr__(self):
+        return f"LookAhead({self.mode!r})"
+
+    @classmethod
+    def from_dict(cls, d):
+        return cls(d.get("mode", ""))
+
+    def to_jsonable(self):
+        d = super().to_jsonable()
+        d["mode"] = self.mode
+        return d
+
+
 class ExpandEven(Expand):
     """the expansion, but only for classes whose prefix has even length: together with Peel some classes get a union and a
     product rule, some only one of them"""
@@ -950,6 +1009,8 @@ def make_pack(mode="", inferral=False, symmetry=False, iterative=False, factory=
         exp = [[ExpandFactory(mode, False)]]
     elif factory == "foreign":
         exp = [[ExpandFactory(mode, True)]]
+    elif factory == "lookahead":
+        exp = [[LookAhead(mode)]]
     else:
         exp = [[Expand(mode)]]
     init = [Peel(mode)]
